@@ -10,7 +10,10 @@ CLAIM = {
           "bits: Inst sweep); accumulating components yield the running total mod 2^32 of a wrapping k-bit counter across messages; expansion only appends marked fields and only "
           "changes values of existing fields, so turning it off yields the same messages minus the expanded fields; a field that is no destination -- whose number no component of any "
           "field or sub-field of the message in the factory table expands into -- is after expansion at the same position and identical, whatever the values, the accumulator "
-          "history, the sub-field substitutions chosen and the nesting depth (C05_non_destination_unchanged). Decided per run, not by theorem: the value of every expanded "
+          "history, the sub-field substitutions chosen and the nesting depth (C05_non_destination_unchanged). Value level, complete for the narrow components (C05_small_component_values_exact): for every component of the profile of at most "
+          "16 bits (120 components, 15 distinct width / scale / offset combinations) and EVERY raw value of its width, the expansion's float pipeline yields the exact "
+          "rational ((bits/cscale - coffset) + doffset) x dscale rounded half away from zero -- a complete sweep under vm_compute over the decoder model's own primitive-float "
+          "expression, lifted to the profile table. Decided per run, not by theorem: the same for the wider components (17..32 bits) and accumulated totals -- the value of every expanded "
           "field against ((bits/cscale - coffset) + doffset) x dscale in exact rational arithmetic (exact when integral, within one unit otherwise), for all 40 component owners, "
           "random/boundary containers and accumulator histories.",
   "note": NOTE_COMMON + " Scaling uses Coq primitive floats (binary64 = Go float64 on amd64); conversion mode translated from decoder.go (gen/ConvMode.v)."}
